@@ -153,7 +153,10 @@ def rerun(ids):
                 return sid, 'PATCH-DOES-NOT-APPLY', {}
             props = sorted(set([meta['breaks_property']] + meta.get('also_check', [])) & set(claimed()))
             res = run_checks(d, props)
-            return sid, ('caught' if any(r['exit'] == 1 for r in res.values()) else 'MISSED'), res
+            verdict = 'caught' if any(r['exit'] == 1 for r in res.values()) else 'MISSED'
+            if verdict == 'MISSED' and meta.get('expected_miss'):
+                verdict = 'missed-as-documented'
+            return sid, verdict, res
         finally:
             drop_tree(d)
 
@@ -162,7 +165,7 @@ def rerun(ids):
         for sid, verdict, res in ex.map(one, ids):
             print(sid, verdict, {p: (r['exit'], r['signatures'][:3]) for p, r in res.items()})
             sys.stdout.flush()
-            if verdict != 'caught':
+            if verdict not in ('caught', 'missed-as-documented'):
                 missed += 1
             mp = os.path.join(root, sid, 'meta.json')
             meta = json.load(open(mp))
